@@ -212,9 +212,9 @@ func init() {
 			"SMGP field widths {10,3,3,10,10,7,3,20} from SMGP 3.0.3 §6.2.63 (spec/wire_tables.json)",
 		},
 		Stages: []*fw.Stage{
-			{Name: "smpp", N: q(150000, 6000000), Run: c18SMPP},
-			{Name: "smgp", N: q(150000, 6000000), Run: c18SMGP},
-			{Name: "statusreport", N: q(20000, 500000), Run: c01StatusReport},
+			{Name: "smpp", N: q(150000, 80000000), Run: c18SMPP},
+			{Name: "smgp", N: q(150000, 80000000), Run: c18SMGP},
+			{Name: "statusreport", N: q(20000, 5000000), Run: c01StatusReport},
 		},
 	})
 }
